@@ -176,6 +176,21 @@ var (
 	// required attributes in normalised form; decorated (case, blanks) when given to a market
 	c20Reqs = []string{"kyc.prov", "*.kyc.prov", "*.prov", "gold.club", "*.gold.club", "*.club", "*.xkyc.prov", "prov",
 		"*.seller.kyc.prov", "buyer.kyc.prov"}
+	// requirement families that a single attribute can cover completely
+	c20OverlapFamilies = [][]string{
+		{"buyer.kyc.prov", "*.kyc.prov", "*.prov"},
+		{"special.seller.kyc.prov", "*.seller.kyc.prov", "*.kyc.prov", "*.prov"},
+		{"*.kyc.prov", "*.prov"},
+		{"gold.club", "*.club"},
+		{"vip.gold.club", "*.gold.club", "*.club"},
+		{"buyer.xkyc.prov", "*.xkyc.prov", "*.prov"},
+	}
+	// accounts with few attributes: 1 or 2 records, to be fewer than / equal to / more than the
+	// number of requirements
+	c20SmallSets = [][]string{
+		{"buyer.kyc.prov"}, {"special.seller.kyc.prov"}, {"vip.gold.club"}, {"gold.club"}, {"kyc.prov"},
+		{"buyer.kyc.prov", "gold.club"}, {"buyer.xkyc.prov", "vip.gold.club"}, {"prov", "club"},
+	}
 	c20BadReqs = []string{"", "*.", "kyc_prov", "a-b-c.prov", "*kyc.prov", "kyc.*.prov", "kyc..prov", "*", ".", "6BA7B810-9dad-11d1-80b4-00c04fd430c8.kyc.prov"}
 )
 
@@ -246,11 +261,23 @@ func c20ReqList(r *rand.Rand, w *CaseWriter) []string {
 	if r.Intn(2) == 0 {
 		return nil
 	}
-	n := 1 + r.Intn(3)
-	perm := r.Perm(len(c20Reqs))
 	var out []string
-	for i := 0; i < n; i++ {
-		out = append(out, c20Decorate(r, c20Reqs[perm[i]]))
+	if r.Intn(5) < 2 {
+		// overlapping requirements: exact + wildcard of the same base, nested wildcards - one
+		// account attribute can satisfy several (or all) of them
+		fam := c20OverlapFamilies[r.Intn(len(c20OverlapFamilies))]
+		perm := r.Perm(len(fam))
+		n := 2 + r.Intn(len(fam)-1)
+		for i := 0; i < n; i++ {
+			out = append(out, c20Decorate(r, fam[perm[i]]))
+		}
+		w.Count("req_lists_overlapping")
+	} else {
+		n := 1 + r.Intn(3)
+		perm := r.Perm(len(c20Reqs))
+		for i := 0; i < n; i++ {
+			out = append(out, c20Decorate(r, c20Reqs[perm[i]]))
+		}
 	}
 	switch r.Intn(24) {
 	case 0: // an invalid or odd entry
@@ -470,7 +497,7 @@ func TestC20(t *testing.T) {
 	for _, d := range c20AllDenoms {
 		rich = rich.Add(sdk.NewCoin(d, big30))
 	}
-	nAcct := 10
+	nAcct := 10 + len(c20SmallSets)
 	accts := make([]c20Acct, nAcct)
 	for i := range accts {
 		a := addrN(901 + i)
@@ -481,6 +508,8 @@ func TestC20(t *testing.T) {
 		case 0: // everything
 			names = c20Names
 		case 1: // nothing
+		case 2, 3, 4, 5, 6, 7, 8, 9:
+			names = c20SmallSets[i-2]
 		default:
 			perm := r.Perm(len(c20Names))
 			n := 1 + r.Intn(6)
@@ -502,8 +531,11 @@ func TestC20(t *testing.T) {
 		c20SetAttr(t, app, baseCtx, owner, maker, n)
 	}
 	pickAcct := func() c20Acct {
-		if r.Intn(5) < 2 {
+		switch r.Intn(10) {
+		case 0, 1, 2:
 			return accts[0]
+		case 3, 4, 5:
+			return accts[1+r.Intn(1+len(c20SmallSets))] // none, one or two attributes
 		}
 		return accts[r.Intn(nAcct)]
 	}
@@ -754,6 +786,9 @@ func TestC20(t *testing.T) {
 				w.Count("can_create_probes")
 				if ok {
 					w.Count("can_create_probes_allowed")
+					if len(ck.reqs) > 0 && len(a.attrs) < len(ck.reqs) {
+						w.Count("can_create_allowed_with_fewer_attrs_than_reqs_" + ck.name)
+					}
 				}
 				if created && len(ck.reqs) > 0 {
 					probeKey(fmt.Sprintf("can/%v/%v", ck.reqs, a.attrs))
